@@ -21,7 +21,7 @@
     fresh host). *)
 From Coq Require Import List NArith Bool.
 From TG.Model Require Import Includes Host HostInst.
-From TG.Proofs Require Import IncludesGraph IncludesRefine HostHistory HostTheorems HostFrame HostExamples.
+From TG.Proofs Require Import IncludesGraph IncludesRefine HostHistory HostTheorems HostFrame HostTotal HostExamples.
 Import ListNotations.
 Local Open Scope nat_scope.
 
@@ -37,6 +37,21 @@ Theorem C07_history_independent :
   exists V, view st1 = Some (p, V) /\
             pcollect (truth w (h ++ [(p, c)])) (extra w) fuel1 [p] [] = Done V.
 Proof. exact (@history_independent). Qed.
+
+(** the same without the "both runs return" hypotheses, over a FINITE world: [R] contains every file
+    on disk and every touched path (none a file-system root), every text involved has at most [D]
+    include statements; then with fuel >= 1 + |R|*(1+D) the session after the history and the fresh
+    session both return, with the same view *)
+Theorem C07_history_independent_total :
+  forall (path istr : Type) (PA : PathAlg path istr) (PAok : PathAlgOk path istr)
+         (w : world path istr) h p c R D fuel,
+  finite_session w (h ++ [(p, c)]) R D ->
+  1 + length R * (1 + D) <= fuel ->
+  exists (st1 st2 : @state path istr) V,
+    run fuel w st_init (h ++ [(p, c)]) = Done st1 /\
+    run fuel (overlay w (h ++ [(p, c)])) st_init [(p, c)] = Done st2 /\
+    view st1 = Some (p, V) /\ view st2 = Some (p, V).
+Proof. exact (@history_independent_total). Qed.
 
 (** frame, for the MODELLED derived queries (the real handlers: assumed + tested): read through the
     id table - every FileId translated to its path - the workspace, the indexer's whole event trace
@@ -84,4 +99,5 @@ Check C07_history_independent :
 
 Print Assumptions C07_history_independent.
 Print Assumptions C07_queries.
+Print Assumptions C07_history_independent_total.
 Print Assumptions C07_raw_api_refuted.
